@@ -83,7 +83,8 @@ def polymod(values):
     return chk
 
 
-def bech32(hrp, ver, prog, const=1):
+def bech32(hrp, ver, prog, const=1, pad=0):
+    """pad: value OR-ed into the padding bits of the last 5-bit group (0 = canonical)"""
     acc, bits, data = 0, 0, [ver]
     for b in prog:
         acc = (acc << 8) | b
@@ -92,7 +93,7 @@ def bech32(hrp, ver, prog, const=1):
             bits -= 5
             data.append((acc >> bits) & 31)
     if bits:
-        data.append((acc << (5 - bits)) & 31)
+        data.append(((acc << (5 - bits)) & 31) | (pad & ((1 << (5 - bits)) - 1)))
     ex = [ord(c) >> 5 for c in hrp] + [0] + [ord(c) & 31 for c in hrp]
     pm = polymod(ex + data + [0] * 6) ^ const
     data += [(pm >> 5 * (5 - i)) & 31 for i in range(6)]
@@ -271,6 +272,11 @@ def text_pool(rng, big):
         for n in (19, 21, 31, 33, 2, 40):
             out.append(cps(bech32(hrp, 0, rbytes(rng, n))))
         out.append(cps(bech32(hrp, 17, rbytes(rng, 20))))
+        # non-zero padding bits (checksum recomputed): 20-byte programs have 0 spare bits in the last
+        # group... 160 = 32*5; 32-byte programs have 4: every non-zero pattern must be refused
+        for padv in (1, 2, 4, 8, 15):
+            out.append(cps(bech32(hrp, 0, rbytes(rng, 32), pad=padv)))
+        out.append(cps(bech32(hrp, 1, rbytes(rng, 2), pad=1)))
         out.append(cps(bech32(hrp.upper(), 0, rbytes(rng, 20))))
     for hrp in ['b', 'bcr', 'tc', 'ltc', 'bc1', '']:
         out.append(cps(bech32(hrp, 0, rbytes(rng, 20))))
